@@ -367,3 +367,12 @@ Definition run_entry (d : nat) (t : tree) (cwd : loc) (dirs : list comp) (base :
         via (file_target rb (arrow_path d t cwd dirs base p)) (fun q => [(AMkdirs, parent q); (ACreateIn, parent q); (AReplace, q); (AStat, q); (ARead, q)])
     end
   end.
+
+(* ---------------------------------------------------------------- histories on one long-lived handle
+   A handle (LocalStorageBackend / DataFileManager / Table) is only its base string: it keeps NO path-derived
+   state.  Between two uses the arrangement may change (a directory inside the root replaced by an outward
+   link, ...); every use is resolved against the tree current AT THAT USE, whatever was resolved before. *)
+Definition hstep := (tree * entry * pstr)%type.
+
+Definition run_history (d : nat) (cwd : loc) (dirs : list comp) (base : pstr) (steps : list hstep) : list (res (list access)) :=
+  map (fun s : hstep => let '(t, ep, p) := s in run_entry d t cwd dirs base ep p) steps.
